@@ -12,7 +12,7 @@ out=seeded_results.jsonl; : > $out
 ids="$@"; [ -n "$ids" ] || ids=$(ls seeded)
 for id in $ids; do
   d=$(pwd)/seeded/$id; [ -f $d/patch.diff ] || continue
-  prop=$(echo ${id%%-*} | sed "s/[bcdefghijklnpqr]$//")
+  prop=$(echo ${id%%-*} | sed "s/[bcdefghijklnpqrs]$//")
   git -C "$R" checkout -q -- . 2>/dev/null
   if ! git -C "$R" apply $d/patch.diff 2>/dev/null; then echo "{\"id\":\"$id\",\"error\":\"patch does not apply\"}" >> $out; continue; fi
   for p in $prop $(python3 -c "import json;print(' '.join(json.load(open('$d/meta.json')).get('also',[])))" 2>/dev/null); do
